@@ -222,7 +222,7 @@ let handle kind c =
       let dn = List.map (fun (nm, _) -> str (decode_stack nm)) cs in
       let distinct = List.length (List.sort_uniq compare dn) = List.length dn in
       if distinct && spec <> want then diff "spec-decode" ~model:(show_obs spec) ~impl:(show_obs want);
-      if policy = "t0000000" then begin
+      if policy = "t00000000-x0" then begin
         match spec_encode meta cs with
         | Some bs -> if bs <> data then
             diff "spec-encode-bytes" ~model:(Printf.sprintf "first difference at %d" (first_diff bs data)) ~impl:"-"
@@ -237,6 +237,7 @@ let handle kind c =
     end
   | "race" ->
     let kind = next c in
+    let fault = next_int c in
     let meta = next_bytes c in
     let _present = next c in
     let init_tok = next c in
@@ -260,7 +261,7 @@ let handle kind c =
           match r with ROk o -> ["ok"; tok_of_n o] | r -> [res_to_string r]) res)
       else if wr_failed then ["openfail"] else ["unfinished-at-pc-" ^ pc_s] in
     (* model: the same schedule on the file-system-call transition system *)
-    (match grace meta init mprogs msched with
+    (match grace meta init mprogs msched (if fault >= 0 then Some (nat_of_int fault) else None) with
      | None -> diff "race-header" ~model:"no header for this metadata" ~impl:"-"
      | Some (st, mtrace) ->
        if st.g_file <> final then
@@ -278,7 +279,7 @@ let handle kind c =
              diff (Printf.sprintf "race-writer%d" i) ~model:(String.concat " " ms) ~impl:(String.concat " " res))
          (List.combine st.g_ws results));
     (* the coarse model of C10_racing_creation (operations as single steps) where it applies *)
-    if kind = "create" then
+    if kind = "create" && fault < 0 then
       (match race meta init mprogs msched with
        | None -> ()
        | Some st ->
